@@ -341,6 +341,12 @@ class Parser:
             ast = _get_parser().parse(fullcsource)
         except pycparser.c_parser.ParseError as e:
             self.convert_pycparser_error(e, csource)
+        except (AssertionError, AttributeError, ValueError) as e:
+            # on some malformed inputs pycparser trips over its own
+            # internals instead of raising ParseError: e.g. an unbalanced
+            # '}', 'long struct foo', or the line directive '# 10UL'
+            raise CDefError("parse error\npycparser failed with %s: %s" %
+                            (e.__class__.__name__, e))
         finally:
             if lock is not None:
                 lock.release()
